@@ -455,8 +455,16 @@ func runProp(cfg runConfig) int {
 	var batch []Case
 	onlyKind := os.Getenv("VERIF_ONLYKIND") // restrict the run to one generator bucket (used by ./check after a harness crash)
 	add := func(c Case) {
-		if onlyKind != "" && !strings.HasPrefix(c.Kind, onlyKind) {
-			return
+		if onlyKind != "" {
+			hit := false
+			for _, k := range strings.Split(onlyKind, ",") {
+				if strings.HasPrefix(c.Kind, k) {
+					hit = true
+				}
+			}
+			if !hit {
+				return
+			}
 		}
 		h := hashOf(c.Line)
 		if _, dup := seen[h]; dup {
